@@ -750,6 +750,11 @@ func (e *Env) call(x *Expr) TV {
 		return TV{And(
 			Implies(And(mk(SBool, "(<= 0 %s)", j), mk(SBool, "(< %s %s)", j, SlLen(s))), Eq(Select(SlElems(r), j), Select(SlElems(s), j))),
 			Implies(And(mk(SBool, "(<= %s %s)", SlLen(s), j), mk(SBool, "(< %s %s)", j, SlLen(r))), Eq(Select(SlElems(r), j), Select(SlElems(t), mk(SInt, "(- %s %s)", j, SlLen(s)))))), nil}
+	case "$appended2":
+		// the same fact, indexed from the appended slice (so that a term t[j] leads to its place in r)
+		j := e.Tr(x.Args[0]).T
+		r, s, t := e.vars["$r"].T, e.vars["$s"].T, e.vars["$t"].T
+		return TV{Implies(And(mk(SBool, "(<= 0 %s)", j), mk(SBool, "(< %s %s)", j, SlLen(t))), Eq(Select(SlElems(r), mk(SInt, "(+ %s %s)", SlLen(s), j)), Select(SlElems(t), j))), nil}
 	case "sz":
 		m := e.Tr(x.Args[0])
 		mv := e.mapValue(m)
